@@ -334,6 +334,191 @@ func qPattern(x *explore.X, pattern []outcome, what string) int {
 	return res.Steps
 }
 
+// ---------------------------------------------------------------- A''. queue controller: a failing queue item
+
+const oRequeue = nOut // success with requeue-after (queue items only)
+
+const requeueAfter = 10 * time.Minute
+
+func qItemName(p []outcome) string {
+	s := make([]string, len(p))
+	for i, o := range p {
+		if o == oRequeue {
+			s[i] = "ok+requeue"
+		} else {
+			s[i] = oNames[o]
+		}
+	}
+	return strings.Join(s, ",")
+}
+
+// qItemPattern: the reconciles of queue item a end as the pattern says (then ok); item b and a healthy controller
+// run next to it. Retries come with growing back-off that every success (with or without requeue) resets, a
+// requeue-after is honoured exactly, the other item is reconciled before any back-off timer fires, and after the
+// faults cease a change of a mapped input still reaches item a.
+func qItemPattern(x *explore.X, pattern []outcome) int {
+	label := "qcontroller item pattern " + qItemName(pattern)
+	res := vrt.Run(nil, vrt.Options{}, func() {
+		ctx, cancel := context.WithCancel(context.Background())
+		log := &hx.Log{}
+		st := state.WrapCore(hx.NewNamespaced(log))
+		for _, r := range []resource.Resource{conformance.NewIntResource(hx.NS, "a", 1), conformance.NewStrResource(hx.NS, "m", "v")} {
+			if err := st.Create(ctx, r); err != nil {
+				panic(err)
+			}
+		}
+		rt, err := runtime.NewRuntime(st, zap.NewNop(), options.WithMetrics(false))
+		if err != nil {
+			panic(err)
+		}
+		n := 0
+		var calls []time.Duration
+		recA, recB, okA := -1, -1, -1
+		qp := &px.QProbe{NameV: "q"}
+		qp.SettingsV = controller.QSettings{
+			Inputs: []controller.Input{{Namespace: hx.NS, Type: tInt, Kind: controller.InputQPrimary}, {Namespace: hx.NS, Type: tStr, Kind: controller.InputQMapped}},
+		}
+		qp.OnReconcile = func(_ context.Context, _ controller.QRuntime, p resource.Pointer) error {
+			if p.ID() != "a" {
+				recB = log.Len()
+				return nil
+			}
+			recA = log.Len()
+			o := oOK
+			if n < len(pattern) {
+				o = pattern[n]
+			}
+			n++
+			calls = append(calls, time.Duration(vrt.Now()))
+			switch o {
+			case oErr:
+				return errors.New("injected item failure")
+			case oPanic:
+				panic("injected item panic")
+			case oRequeue:
+				okA = recA
+				return controller.NewRequeueInterval(requeueAfter)
+			}
+			okA = recA
+			return nil
+		}
+		qp.OnMap = func(context.Context, controller.QRuntime, controller.ReducedResourceMetadata) ([]resource.Pointer, error) {
+			return []resource.Pointer{hx.IntPtr("a")}, nil
+		}
+		healthyIdx := -1
+		healthy := &px.Probe{NameV: "healthy", InputsV: []controller.Input{{Namespace: hx.NS, Type: tInt, Kind: controller.InputWeak}}}
+		healthy.OnEvent = func(context.Context, controller.Runtime, int) error { healthyIdx = log.Len(); return nil }
+		if err := rt.RegisterQController(qp); err != nil {
+			panic(err)
+		}
+		if err := rt.RegisterController(healthy); err != nil {
+			panic(err)
+		}
+		runDone := false
+		vrt.Go(func() { rt.Run(ctx); runDone = true }) //nolint:errcheck
+		drain(30*time.Minute, func() {
+			// item a has had its first reconcile (and is backing off if that failed): a new item and the healthy
+			// controller must be served before any back-off timer fires
+			if err := st.Create(ctx, conformance.NewIntResource(hx.NS, "b", 1)); err != nil {
+				panic(err)
+			}
+			vrt.WaitQuiescent()
+			if healthyIdx <= lastIntCommit(log) || recB <= lastIntCommit(log) {
+				x.FailKey("contain/isolation", "%s: the creation of item b (commit #%d) was not reconciled by the healthy controller (log length %d) and as queue item b (log length %d) before any back-off timer fired", label, lastIntCommit(log), healthyIdx, recB)
+			}
+		})
+		// fresh notifications continue the pattern after successes; the last one comes through the mapped input
+		for round := 0; n < len(pattern) && round < 2*len(pattern); round++ {
+			update(ctx, st, "a")
+			drain(30*time.Minute, nil)
+		}
+		if _, err := st.UpdateWithConflicts(ctx, resource.NewMetadata(hx.NS, tStr, "m", resource.VersionUndefined), func(r resource.Resource) error {
+			r.(*conformance.StrResource).SetValue("v2")
+			return nil
+		}); err != nil {
+			panic(err)
+		}
+		mapped := log.Len() - 1
+		drain(30*time.Minute, nil)
+		if okA <= mapped {
+			x.FailKey("contain/converge", "%s: the mapped input change (commit #%d) was never reconciled successfully for item a (last success started at log length %d) although faults ceased: invocations at %v", label, mapped, okA, calls)
+		}
+		// retries: back-off after every failure, growing between consecutive failures, reset by any success
+		var first, prev time.Duration
+		for i := 1; i < len(calls) && i <= len(pattern); i++ {
+			gap := calls[i] - calls[i-1]
+			switch pattern[i-1] {
+			case oRequeue:
+				if gap != requeueAfter {
+					x.FailKey("contain/requeue", "%s: invocation %d came %v after a success that asked for requeue after %v (no notification in between): invocations at %v", label, i, gap, requeueAfter, calls)
+				}
+			case oErr, oPanic:
+				if gap <= 0 {
+					x.FailKey("contain/backoff", "%s: retry %d without back-off: invocations at %v", label, i, calls)
+				}
+				consecutive := i >= 2 && (pattern[i-2] == oErr || pattern[i-2] == oPanic)
+				if first == 0 {
+					first = gap
+				}
+				if consecutive && gap <= prev {
+					x.FailKey("contain/backoff", "%s: back-off did not grow between consecutive failures: %v then %v: invocations at %v", label, prev, gap, calls)
+				}
+				if !consecutive && gap != first {
+					x.FailKey("contain/backoff-reset", "%s: back-off was not reset by the success before failure %d: waited %v, the first failure waited %v: invocations at %v", label, i-1, gap, first, calls)
+				}
+				prev = gap
+			}
+		}
+		if n < len(pattern) {
+			x.FailKey("contain/restart", "%s: only %d of %d outcomes were consumed: a failed item was not retried (invocations at %v)", label, n, len(pattern), calls)
+		}
+		cancel()
+		vrt.WaitQuiescent()
+		if !runDone {
+			x.FailKey("shutdown/run", "%s: Run did not return after cancel", label)
+		}
+	})
+	for _, p := range res.Panics {
+		x.FailKey("contain/crash", "%s: a panic escaped (process would crash): %s", label, p)
+	}
+	if len(res.Live) > 0 {
+		x.FailKey("shutdown/leak", "%s: goroutines alive at the end: %v", label, res.Live)
+	}
+	return res.Steps
+}
+
+func qItemScenario() explore.Scenario {
+	return explore.Scenario{
+		Name:       "patterns/queue-item",
+		Desc:       "every outcome pattern of length <= 3 over {ok, ok+requeue-after, error, panic} for the reconciles of one queue item, next to a second item and a healthy controller, on the real runtime with a virtual clock: retries with growing back-off that every success resets, requeue-after honoured exactly, the other item and the other controller served before any back-off timer fires, convergence through a mapped input after the faults cease, no escaping panic, clean shutdown",
+		Sequential: true,
+		Body: func(x *explore.X) {
+			n, steps := 0, 0
+			var rec func(p []outcome)
+			rec = func(p []outcome) {
+				if len(p) > 0 {
+					steps += qItemPattern(x, p)
+					n++
+				}
+				if len(p) == 3 {
+					return
+				}
+				for o := outcome(0); o <= oRequeue; o++ {
+					rec(append(append([]outcome{}, p...), o))
+				}
+			}
+			rec(nil)
+			x.Add("states", n)
+			x.Add("transitions", steps)
+			x.Add("evaluations", n)
+			x.Add("distinct_nontrivial", n)
+			x.Add("traces_validated_against_impl", n)
+			x.Sample(map[string]any{"pattern": "error,ok+requeue,error", "target": "qcontroller item reconcile"})
+			x.Outcome("patterns=%d", n)
+		},
+	}
+}
+
 func patternScenario() explore.Scenario {
 	return explore.Scenario{
 		Name:       "patterns/controller+runhook+mapinput",
@@ -725,6 +910,7 @@ func build(tier string) []explore.Scenario {
 	}
 	out := []explore.Scenario{
 		patternScenario(),
+		qItemScenario(),
 		shutdownScenario("shutdown/cancel/controller", false, false, b1),
 		shutdownScenario("shutdown/cancel/qcontroller", false, true, b1),
 		shutdownScenario("shutdown/watch-error/controller", true, false, b1),
